@@ -233,7 +233,7 @@ func opDec(args []string) string {
 	}
 	var outs []string
 	for i := 0; i < maxNext; i++ {
-		rec.Toks = rec.Toks[:0]
+		rec.Reset()
 		err := d.Next()
 		res := "ok"
 		if err == io.EOF {
@@ -309,7 +309,7 @@ func opReuseParse(args []string) string {
 	p := f.NewParser(rec)
 	var ds []string
 	for _, d := range docs {
-		rec.Toks = rec.Toks[:0]
+		rec.Reset()
 		if _, err := p.Write(mustHex(d)); err != nil {
 			return "err"
 		}
